@@ -356,4 +356,14 @@ def prepare_lean(rep, extra_targets=()):
         rep.cov["discharged"] = 0
     proof_ok = ok and not detail["forbidden"] and detail["audit"] and not detail["audit"]["failures"] \
         and detail["audit"]["discharged"] == detail["audit"]["obligations"] and detail["audit"]["obligations"] > 0
+    if ok and rep.tier == "thorough":
+        # independent re-check of the compiled theorem modules by the toolchain's external checker
+        try:
+            r = subprocess.run(["lake", "env", "leanchecker"] + [m for m in mods if m], cwd=LEAN, capture_output=True, text=True, timeout=1800)
+            rep.cov["leanchecker"] = "ok" if r.returncode == 0 else ("FAILED: " + (r.stdout + r.stderr)[-400:])
+            if r.returncode != 0:
+                proof_ok = False
+                detail["build_log_tail"] = "leanchecker: " + (r.stdout + r.stderr)[-1500:]
+        except Exception as e:      # the external checker is an additional safeguard; its absence is recorded, not fatal
+            rep.cov["leanchecker"] = f"not run: {type(e).__name__}"
     return proof_ok, detail
